@@ -141,24 +141,40 @@ Proof.
   f_equal. apply (NoDup_fst_functional (group_notes ins) (ckey_of n) ids ids' Gc H1 H2).
 Qed.
 
-Lemma equivs_chord_NoDup : forall ins, NoDup (map fst ins) -> NoDup (map fst (equivs_of false ins)).
+(* a choice of representative: a member of the (non-empty) chord *)
+Definition rep_in (rp : list Z -> Z) : Prop := forall ids, ids <> [] -> In (rp ids) ids.
+
+Lemma rep_of_is_member : forall ins, rep_in (rep_of ins).
+Proof. intros ins ids H. apply rep_of_In. exact H. Qed.
+
+Lemma rep_obs_is_member : forall vin ins, rep_in (rep_obs vin ins).
 Proof.
-  intros ins N. unfold equivs_of. rewrite map_map. cbn [fst].
+  intros vin ins ids H. unfold rep_obs.
+  destruct (filter (fun i => mem_z i vin) ids) as [|x r] eqn:E.
+  - destruct ids; [congruence | left; reflexivity].
+  - assert (Hx : In x (filter (fun i => mem_z i vin) ids)) by (rewrite E; left; reflexivity).
+    apply filter_In in Hx. tauto.
+Qed.
+
+Lemma equivs_chord_NoDup : forall rp ins, rep_in rp -> NoDup (map fst ins) ->
+  NoDup (map fst (equivs_with rp false ins)).
+Proof.
+  intros rp ins RI N. unfold equivs_with. rewrite map_map. cbn [fst].
   destruct (group_notes_ok ins) as [_ [_ Gc]].
   apply NoDup_map_on; [|exact (NoDup_of_map _ _ Gc)].
   intros [k ids] [k' ids'] H1 H2 E. cbn [snd] in E.
-  pose proof (rep_of_In ins ids (group_notes_nonempty _ _ _ H1)) as R1.
-  pose proof (rep_of_In ins ids' (group_notes_nonempty _ _ _ H2)) as R2.
+  pose proof (RI ids (group_notes_nonempty _ _ _ H1)) as R1.
+  pose proof (RI ids' (group_notes_nonempty _ _ _ H2)) as R2.
   rewrite E in R1. eapply group_unique; eauto.
 Qed.
 
 (* every note is a member of the entry the dictionary lookup of its representative returns *)
-Lemma equivs_cover : forall mono ins i, NoDup (map fst ins) -> In i (map fst ins) ->
-  exists rep mem, In rep (map fst (equivs_of mono ins)) /\
-                  zlookup rep (equivs_of mono ins) = Some mem /\ In i mem.
+Lemma equivs_cover : forall rp mono ins i, rep_in rp -> NoDup (map fst ins) -> In i (map fst ins) ->
+  exists r mem, In r (map fst (equivs_with rp mono ins)) /\
+                  zlookup r (equivs_with rp mono ins) = Some mem /\ In i mem.
 Proof.
-  intros mono ins i N Hi. destruct mono.
-  - exists i, [i]. unfold equivs_of. split; [|split; [|left; reflexivity]].
+  intros rp mono ins i RI N Hi. destruct mono.
+  - exists i, [i]. unfold equivs_with. split; [|split; [|left; reflexivity]].
     + rewrite map_map. cbn [fst]. exact Hi.
     + clear N. induction ins as [|[a n] r IH]; [destruct Hi|].
       cbn [map fst zlookup]. destruct (i =? a) eqn:E; [zb; subst; reflexivity|].
@@ -166,12 +182,12 @@ Proof.
   - apply in_map_iff in Hi. destruct Hi as [[i' n] [E Hin]]. cbn in E. subst i'.
     destruct (group_notes_ok ins) as [_ [Gb _]].
     destruct (Gb _ _ Hin) as [ids [Hg Hids]].
-    exists (rep_of ins ids), ids.
-    assert (He : In (rep_of ins ids, ids) (equivs_of false ins)).
-    { unfold equivs_of. apply in_map_iff. exists (ckey_of n, ids). split; [reflexivity | exact Hg]. }
-    split; [apply in_map_iff; exists (rep_of ins ids, ids); split; [reflexivity | exact He]|].
+    exists (rp ids), ids.
+    assert (He : In (rp ids, ids) (equivs_with rp false ins)).
+    { unfold equivs_with. apply in_map_iff. exists (ckey_of n, ids). split; [reflexivity | exact Hg]. }
+    split; [apply in_map_iff; exists (rp ids, ids); split; [reflexivity | exact He]|].
     split; [|exact Hids].
-    apply zlookup_NoDup; [apply equivs_chord_NoDup; exact N | exact He].
+    apply zlookup_NoDup; [apply equivs_chord_NoDup; assumption | exact He].
 Qed.
 
 Lemma vosa_input_fst : forall ins eqv, map fst (vosa_input ins eqv) = zsort (map fst eqv).
@@ -181,46 +197,51 @@ Qed.
 
 (* ------------------------------------------------------------------ *)
 
+Lemma forallb_mem_z : forall l l', forallb (fun i => mem_z i l') l = true -> forall i, In i l -> In i l'.
+Proof. intros l l' H i Hi. apply mem_z_In. exact (forallb_In _ _ H i Hi). Qed.
+
 Section Total.
+  Variable rep : list (Z * vnote) -> list Z -> Z.
   Variable oracle : list (Z * vnote) -> list (Z * Z).
+  Hypothesis rep_member : forall ins, rep_in (rep ins).
 
   Lemma voices_total_lemma : forall mono notes,
     let ins := indexed_from 0 notes in
-    let inp := vosa_input ins (equivs_of mono ins) in
+    let inp := vosa_input ins (equivs_with (rep ins) mono ins) in
     oracle_total_on inp (oracle inp) = true ->
-    exists out, estimate_voices oracle mono notes = Some out /\ List.length out = List.length notes.
+    exists out, estimate_voices rep oracle mono notes = Some out /\ List.length out = List.length notes.
   Proof.
     intros mono notes ins inp T.
     assert (ND : NoDup (map fst ins)) by (unfold ins; rewrite indexed_from_fst; apply zrange_NoDup).
-    unfold oracle_total_on in T.
-    apply (list_eqb_eq Z.eqb (fun x y H => proj1 (Z.eqb_eq x y) H)) in T.
-    unfold inp in T at 2. rewrite vosa_input_fst in T.
-    set (eqv := equivs_of mono ins) in *. set (res := oracle inp) in *.
+    unfold oracle_total_on in T. apply andb_true_iff in T. destruct T as [T1 T2].
+    pose proof (forallb_mem_z _ _ T1) as R1. pose proof (forallb_mem_z _ _ T2) as R2. clear T1 T2.
+    unfold inp in R1 at 2. unfold inp in R2 at 1. rewrite vosa_input_fst in R1, R2.
+    set (eqv := equivs_with (rep ins) mono ins) in *. set (res := oracle inp) in *.
     (* 1: every id VoSA returns is a key of idx_equivs *)
     set (f := fun r : Z * Z => match zlookup (fst r) eqv with Some mem => Some (mem, snd r) | None => None end).
     assert (F : forall r, In r res -> exists w, f r = Some w).
     { intros r Hr. assert (Hk : In (fst r) (map fst eqv)).
-      { apply (zsort_In (fst r)). rewrite <- T. apply zsort_In. apply in_map. exact Hr. }
+      { apply (zsort_In (fst r)). apply R1. apply in_map. exact Hr. }
       destruct (zlookup_In_fst _ _ Hk) as [mem E]. exists (mem, snd r). unfold f. rewrite E. reflexivity. }
     destruct (all_some_total f res F) as [writes [W Wc]].
     (* 2: every note is written *)
     set (g := fun x : Z * vnote => final_voice writes (fst x)).
     assert (G : forall x, In x ins -> exists v, g x = Some v).
     { intros x Hx. unfold g. apply final_voice_some.
-      destruct (equivs_cover mono ins (fst x) ND (in_map fst _ _ Hx)) as [rep [mem [H1 [H2 H3]]]].
+      destruct (equivs_cover (rep ins) mono ins (fst x) (rep_member ins) ND (in_map fst _ _ Hx)) as [rp [mem [H1 [H2 H3]]]].
       fold eqv in H1, H2.
-      assert (Hr : In rep (map fst res)).
-      { apply (zsort_In rep). rewrite T. apply zsort_In. exact H1. }
+      assert (Hr : In rp (map fst res)).
+      { apply R2. apply zsort_In. exact H1. }
       apply in_map_iff in Hr. destruct Hr as [r [Er Hr]].
       destruct (Wc r Hr) as [w [Hw1 Hw2]]. exists w. split; [exact Hw2|].
       unfold f in Hw1. rewrite Er, H2 in Hw1. inversion Hw1; subst w. cbn [fst].
       apply mem_z_In. exact H3. }
     destruct (all_some_total g ins G) as [vs [V _]].
-    assert (S : scatter oracle mono notes = Some vs).
+    assert (S : scatter rep oracle mono notes = Some vs).
     { unfold scatter. fold ins. fold eqv. fold inp. fold res. fold f. rewrite W. exact V. }
     exists (reverse_voices (rename_voices vs)). split.
     - unfold estimate_voices. rewrite S. reflexivity.
-    - unfold reverse_voices, rename_voices. rewrite !map_length. apply (scatter_length oracle mono notes vs S).
+    - unfold reverse_voices, rename_voices. rewrite !map_length. apply (scatter_length rep oracle mono notes vs S).
   Qed.
 End Total.
 
@@ -230,4 +251,11 @@ Example voices_total_example :
   let notes := [(60, 0, 4); (72, 0, 2); (67, 0, 2); (74, 2, 0)] in
   let ins := indexed_from 0 notes in
   oracle_total_on (vosa_input ins (equivs_of false ins)) [(0, 0); (3, 1); (1, 1)] = true.
+Proof. vm_compute. reflexivity. Qed.
+
+(* the same input when the implementation is observed to hand the LOWER chord note (id 2) to VoSA:
+   the observed choice is a member, the checker's model follows it *)
+Example voices_other_representative :
+  voices_check (false, [(60, 0, 4); (72, 0, 2); (67, 0, 2); (74, 2, 0)], [3; 2; 0],
+                [(0, 0); (3, 1); (2, 1)], [2; 1; 1; 1]) = true.
 Proof. vm_compute. reflexivity. Qed.
